@@ -188,15 +188,21 @@ type rec struct {
 	P *int           `json:"p,omitempty"`
 }
 
+// anyRec has an interface-typed slot, like records carrying free-form extra fields.
+type anyRec struct {
+	N string `json:"n"`
+	V any    `json:"v"`
+}
+
 type JSONCase struct {
-	Kind  string   `json:"kind"`  // struct | map | slice
+	Kind  string   `json:"kind"`  // struct | map | slice | any | anyrec
 	Elems []string `json:"elems"` // JSON text of each element
 	Limit int      `json:"limit"`
 	Hold  bool     `json:"hold"` // keep all yielded values and compare at the end (aliasing)
 }
 
 func genJSON(t *rapid.T) JSONCase {
-	c := JSONCase{Kind: rapid.SampledFrom([]string{"struct", "map", "slice"}).Draw(t, "kind")}
+	c := JSONCase{Kind: rapid.SampledFrom([]string{"struct", "map", "slice", "any", "anyrec"}).Draw(t, "kind")}
 	n := rapid.IntRange(0, 8).Draw(t, "n")
 	keys := []string{"a", "b", "c"}
 	for i := 0; i < n; i++ {
@@ -228,6 +234,33 @@ func genJSON(t *rapid.T) JSONCase {
 			v = m
 		case "slice":
 			v = rapid.SliceOfN(rapid.IntRange(1, 9), 0, 4).Draw(t, "s")
+		case "any", "anyrec":
+			// dynamically typed element: scalars, lists and objects mixing numbers,
+			// strings, booleans and null
+			scalar := rapid.OneOf(
+				rapid.Map(rapid.IntRange(-9, 9), func(x int) any { return x }),
+				rapid.Map(rapid.SampledFrom([]float64{1.5, -0.25, 1e3}), func(x float64) any { return x }),
+				rapid.Map(rapid.SampledFrom([]string{"x", "7", ""}), func(x string) any { return x }),
+				rapid.Map(rapid.Bool(), func(x bool) any { return x }),
+				rapid.Just[any](nil),
+			)
+			var e any
+			switch rapid.IntRange(0, 2).Draw(t, "shape") {
+			case 0:
+				e = scalar.Draw(t, "scalar")
+			case 1:
+				e = rapid.SliceOfN(scalar, 0, 3).Draw(t, "list")
+			default:
+				m := map[string]any{}
+				for _, k := range rapid.SliceOfNDistinct(rapid.SampledFrom(keys), 0, 2, rapid.ID[string]).Draw(t, "ks") {
+					m[k] = scalar.Draw(t, "mv")
+				}
+				e = m
+			}
+			if c.Kind == "anyrec" {
+				e = map[string]any{"n": rapid.SampledFrom([]string{"x", "y"}).Draw(t, "n"), "v": e}
+			}
+			v = e
 		}
 		b, _ := json.Marshal(v)
 		c.Elems = append(c.Elems, string(b))
@@ -296,6 +329,10 @@ func runJSON(c JSONCase) kit.Result {
 		return runJSONKind[rec](c)
 	case "map":
 		return runJSONKind[map[string]int](c)
+	case "any":
+		return runJSONKind[any](c)
+	case "anyrec":
+		return runJSONKind[anyRec](c)
 	default:
 		return runJSONKind[[]int](c)
 	}
@@ -303,7 +340,7 @@ func runJSON(c JSONCase) kit.Result {
 
 var jsonSpec = kit.Spec[JSONCase]{
 	Prop: "C43", Name: "json",
-	Rule:  "JSON iterator over a stream of structured elements (structs with omitted fields, maps, slices) under an optional Limit; every yielded value equals an independent decode of that element's own text, also when values are kept and inspected after the iteration; non-trivial = at least two different elements",
+	Rule:  "JSON iterator over a stream of structured elements (structs with omitted fields, maps, slices, dynamically typed values decoded into any or into a struct with an any-typed field) under an optional Limit; every yielded value equals an independent decode of that element's own text, also when values are kept and inspected after the iteration; non-trivial = at least two different elements",
 	Quick: 6000, Thorough: 40000,
 	Gen: genJSON, Run: runJSON,
 }
